@@ -177,8 +177,8 @@ def run(ctx):
   ctx.bad = [(e, c) for e, c in ctx.bad if c.startswith("Equal:") or c in mine]
   # non-finite pwl_calibration_fn outputs caused by keypoint segments below float32 resolution are C15's known
   # finding (the function has no value there), not a disagreement between two representations
-  skipped = [1 for e, c in ctx.bad if c == "Finite" and e.get("site", {}).get("sub_resolution_segment")]
-  ctx.bad = [(e, c) for e, c in ctx.bad if not (c == "Finite" and e.get("site", {}).get("sub_resolution_segment"))]
+  skipped = [1 for e, c in ctx.bad if c == "Finite" and e.get("site", {}).get("probe_on_collapsed_keypoint")]
+  ctx.bad = [(e, c) for e, c in ctx.bad if not (c == "Finite" and e.get("site", {}).get("probe_on_collapsed_keypoint"))]
   ctx.extra["pwl_fn_nonfinite_sub_resolution_skipped"] = len(skipped)
   return ctx.finish()
 
